@@ -590,7 +590,7 @@ def k2_replay(topology, n, tree_kind, site_kind, tip_states, vals, second_round=
 # ------------------------------------------------------------------ driver
 # thorough keeps ~100 tasks x 3 solver processes busy on 16 cores: wall-clock solver budgets are scaled so that
 # contention does not turn decidable goals into 'unknown'
-TSCALE = 3.0 if os.environ.get('VERIF_TIER') == 'thorough' else 1.0
+TSCALE = 6.0 if os.environ.get('VERIF_TIER') == 'thorough' else 1.0  # wall-clock solver budgets: the n = 5, S = 4, K = 2 identities need ~60-150 s each on a busy machine
 
 
 def run_task(task, tr):
